@@ -21,9 +21,14 @@ Bounded-exhaustive enumeration, exhaustive in the VALUE dimension (executor: har
      block with float bit patterns; quick: a stratified boundary set (every exponent, every integer and half-step of
      both grids +-3 ulp, conversion-overflow boundaries) x 8 formats, plus every pattern with 2^-17 <= |x| < 4 for
      16-bit signed little-endian and 2^-9 <= |x| < 4 for 8-bit unsigned; thorough: ALL 2^32 patterns x 8 formats.
+ (d) destination-buffer placement axis and filter-callback axis (pylib/c17_place.py, executor harness/c17_place.c): every format x
+     channel count x length class with the destination at every offset 0..7 (thorough 0..15) from a 16-byte aligned base inside a
+     canary arena, and ending exactly at an inaccessible page; ov_read_filter with filter NULL / identity / scale / negate / a filter
+     that reads an independent handle; boundary float set at every placement; dense float sweeps at an odd address.
 """
 import os, sys, re, json, time, struct, subprocess, random
 import vlib
+import c17_place as PL
 
 PID = 'C17'
 KEY_FTOI = 'ftoi_overflow_wraps_to_negative_rail'
@@ -358,11 +363,13 @@ def run(tier):
     # the small batch (twin / refusal / boundary-set cases, ~100 CPU s) carries every vacuity guard: no cap in quick
     res = vlib.run_cases(exe, [case_line(c, S) for c in pre], ['--deadline', str(deadline)] if tier == 'thorough' else [], tag='c17a')
     evaluate(chk, pre, res, S, agg)
+    pagg = PL.run_family(chk, tier, S, deadline)      # (d) placement / filter-callback axes, before anything the deadline may cut
     # non-seekable chained twins under ASan: a wrong per-link info lookup is an out-of-bounds read before it is a wrong byte
     res = vlib.run_cases(exe_asan, [case_line(c, S) for c in scases], ['--deadline', str(deadline)] if tier == 'thorough' else [], tag='c17s')
     evaluate(chk, scases, res, S, agg)
     res = vlib.run_cases(exe, [case_line(c, S) for c in val], ['--deadline', str(deadline)], tag='c17b')
     evaluate(chk, val, res, S, agg)
+    PL.run_sweep(chk, tier, S, deadline, pagg)        # (d) dense float sweeps at an odd destination address
 
     # ---------------------------------------------------------------- the ftoi overflow finding, stated precisely
     lines = []
@@ -414,7 +421,7 @@ def run(tier):
     # ---------------------------------------------------------------- coverage
     combos = [(fmt_name(f), CLS[i]) for f in range(8) for i in range(len(CLS)) if agg['cls'][f][i] > 0]
     full = [f for f in range(8) if agg['vcover'][f] == 1 << 32]
-    exhaustive = not agg['skipped']
+    exhaustive = not agg['skipped'] and not pagg['skipped']
     chk.cov.update({
         'distinct_nontrivial': len(combos),
         'exhaustive': exhaustive,
@@ -455,6 +462,7 @@ def run(tier):
         'the float side (ov_read_float) is taken as given; its conformance is C01 territory',
         'the filter callback of ov_read_filter replaces the decoded block; the packing loops after it are the ones ov_read runs (ov_read is ov_read_filter with filter=NULL)',
     ]
+    PL.finish(chk, tier, S, pagg, exhaustive)
     ok_fmts = range(8)
     chk.guard(all(agg['cls'][f][3] > 0 and agg['cls'][f][4] > 0 for f in ok_fmts), 'each format saw both rails clipped')
     chk.guard(all(agg['cls'][f][2] > 0 for f in ok_fmts), 'each format saw exact ties')
@@ -490,6 +498,9 @@ def replay(path):
     r = json.load(open(path))['replay']
     tier = r.get('tier', 'quick')
     c = tuple(r['case'])
+    if c[0] in PL.KINDS:
+        vlib.build('plain')
+        return PL.replay_case(c, tier, streams(tier))
     fl = 'asan' if c[0] == 'S' else 'plain'
     vlib.build('plain', fl)
     vlib.harness('plain', 'c17_pcm')
